@@ -7,6 +7,7 @@ import (
 	"errors"
 	"fmt"
 	"io"
+	"reflect"
 	"testing"
 
 	"github.com/jamf/regatta/regattapb"
@@ -29,6 +30,24 @@ import (
 )
 
 const prop = "C06"
+
+// deliverLogCompacted hands the compaction event to the cache the way storage/engine_events.go does.  It goes through reflection so that
+// the check still builds when the notification carries more of dragonboat's event (raftio.EntryInfo: shard, replica, index of the last
+// removed entry) than the shard id it carries today.
+func deliverLogCompacted(sc any, shard, lastRemoved uint64) {
+	m := reflect.ValueOf(sc).MethodByName("LogCompacted")
+	if !m.IsValid() {
+		panic("harness: the log cache has no LogCompacted method any more")
+	}
+	args := []reflect.Value{reflect.ValueOf(shard)}
+	for i := 1; i < m.Type().NumIn(); i++ {
+		if m.Type().In(i).Kind() != reflect.Uint64 {
+			panic("harness: unexpected LogCompacted parameter " + m.Type().In(i).String())
+		}
+		args = append(args, reflect.ValueOf(lastRemoved))
+	}
+	m.Call(args)
+}
 
 const shardID = 10001
 
@@ -335,7 +354,8 @@ func run(c Case, o *vt.Obs) *vt.Failure {
 			nm := min(l.applied, l.marker+op.N)
 			l.entries = l.entries[nm-l.marker:]
 			l.marker = nm
-			sc.LogCompacted(shardID) // the engine forwards dragonboat's LogCompacted event to the cache
+			// the engine forwards dragonboat's LogCompacted event (shard, index of the last removed entry) to the cache
+			deliverLogCompacted(sc, shardID, l.marker)
 		case "query":
 			rng := dragonboat.LogRange{FirstIndex: op.Start, LastIndex: l.applied + 1}
 			se, serr := simple.QueryRaftLog(ctx, shardID, rng, op.MaxSize)
